@@ -67,9 +67,93 @@ def build(rows, n, symbolic, w):
     return Polynomial(alpha, np.array([float(c[1]) for _, c in rows]))
 
 
+def poly_dual_case(rng):
+    """dual form of a constrained POLYNOMIAL relaxation (ell = 0): the multiplier/constraint pairs are captured from make_poly_lagrangian
+    and every array from moment_reduction_array as poly_constrained_dual itself obtains them; a and the objective are read off the Problem"""
+    import sageopt as so
+    import sageopt.coniclifts as cl
+    from sageopt.relaxations import sage_polys as sp
+    from sageopt.relaxations import symbolic_correspondences as scor
+    from harness.props import c04
+    n = rng.randint(1, 2)
+    x = so.standard_poly_monomials(n)
+    mono = lambda: float(rng.choice([1, -1, 2, -3])) * np.prod([x[j] ** rng.choice([0, 1, 2]) for j in range(n)])
+    f = sum(mono() for _ in range(rng.randint(2, 3))) + x[0] ** 4 + float(rng.choice([0, 1]))
+    gts = [float(rng.choice([1, 4])) - sum(x[j] ** 2 for j in range(n))] + ([x[0] + 2.0] if rng.random() < 0.5 else [])
+    eqs = [x[0] * x[n - 1] - 0.5] if rng.random() < 0.4 else []
+    p_, q_ = rng.choice([0, 0, 1]), 1
+    cap = {'mra': []}
+    o1, o2 = sp.make_poly_lagrangian, scor.moment_reduction_array
+
+    def spy1(*a, **k):
+        out = o1(*a, **k)
+        cap['lag'] = out
+        return out
+
+    def spy2(s_h, h, L):
+        C = o2(s_h, h, L)
+        cap['mra'].append(np.asarray(C, dtype=float))
+        return C
+    sp.make_poly_lagrangian, scor.moment_reduction_array = spy1, spy2
+    try:
+        with warnings.catch_warnings():
+            warnings.simplefilter('ignore')
+            prob = sp.poly_constrained_dual(f, gts, eqs, p_, q_, 0)
+    finally:
+        sp.make_poly_lagrangian, scor.moment_reduction_array = o1, o2
+    L, ineq, eqm, _ = cap['lag']
+    if len(cap['mra']) != len(ineq) + len(eqm):
+        raise ValueError('poly_constrained_dual called moment_reduction_array %d times for %d multipliers' % (len(cap['mra']), len(ineq) + len(eqm)))
+    v = [u for u in prob.all_variables if u.name == 'v'][0]
+    vids = [int(i) for i in np.asarray(v.scalar_variable_ids).ravel().tolist()]
+    last = list(prob.constraints[-1].expr.flat)[0]
+    amap = {}
+    for at, co in last.atoms_to_coeffs.items():
+        amap[int(at.id)] = amap.get(int(at.id), Fraction(0)) + Fraction(float(co))
+    off = Fraction(float(last.offset))
+    if prob.constraints[-1].operator != '==' or off not in (Fraction(1), Fraction(-1)) or any(i not in vids for i in amap):
+        raise ValueError('the last constraint of the dual problem is not a.v == 1')
+    a = [(-amap.get(i, Fraction(0)) if off == 1 else amap.get(i, Fraction(0))) for i in vids]
+    vm = prob.variable_map[v.name].ravel().tolist()
+    obj = [Fraction(float(prob.c[col])) if col >= 0 else Fraction(0) for col in vm]
+    mats = [vlib.Some([[Fraction(float(t_)) for t_ in row] for row in C.tolist()]) for C in cap['mra']]
+    gm = [(c04.grid_rows(s_.alpha), c12.canon(g_)) for s_, g_ in ineq]
+    hm = [(c04.grid_rows(z_.alpha), c12.canon(h_)) for z_, h_ in eqm]
+    cin = cq((Nat(n), c12.canon(f), c04.grid_rows(L.alpha), gm, hm))
+    cout = cq((a, obj, mats[:len(ineq)], mats[len(ineq):]))
+    return cin, cout, {'n': n, 'p': p_, 'L_rows': int(L.m), 'ineq': len(ineq), 'eq': len(eqm)}
+
+
 def run(ctx):
     from sageopt.relaxations import sage_polys as sp
     from sageopt.coniclifts.base import Expression
+    from harness.props import c04
+    pduals = []
+    for _ in range(ctx.n(40, 400)):
+        try:
+            cin_, cout_, meta_ = poly_dual_case(ctx.rng)
+            if meta_['L_rows'] <= 40:
+                pduals.append((meta_, cin_, cout_))
+                ctx.count('poly_dual_multipliers', meta_['ineq'] + meta_['eq'])
+        except ValueError as e:
+            ctx.problem('correspondence', 'dual form of the constrained polynomial relaxation: %s' % e, inputs={'suite': 'poly_constrained_dual'},
+                        failing_input_found=False)
+            break
+        except Exception as e:
+            ctx.count('poly_dual_builder_error', type(e).__name__)
+    ctx.evaluations += len(pduals)
+    mism, err = vlib.run_suite_in_coq(ctx.pid, 'poly_constrained_dual', c04.HEADER, 'model_cdual', 'cdual_eqb',
+                                      'nat * qsig * list qrow * list (list qrow * qsig) * list (list qrow * qsig)',
+                                      'list Q * list Q * list (option (list (list Q))) * list (option (list (list Q)))',
+                                      [(c[1], c[2]) for c in pduals], shard=60)
+    ctx.suites['poly_constrained_dual'] = {'cases': len(pduals), 'mismatches': None if mism is None else len(mism)}
+    if err:
+        ctx.problem('correspondence', 'suite poly_constrained_dual: ' + err)
+    else:
+        for idx in mism[:3]:
+            model_out = vlib.coq_show(c04.HEADER, 'model_cdual %s' % pduals[idx][1])
+            ctx.problem('correspondence', 'suite poly_constrained_dual: model and implementation disagree on %s; impl=%s model=%s'
+                        % (pduals[idx][0], pduals[idx][2][:900], model_out[:900]), inputs=pduals[idx][0], failing_input_found=False)
     cases = []
     for k in range(ctx.n(300, 3000)):
         n = ctx.rng.randint(1, 3)
